@@ -41,6 +41,12 @@ META = dict(
                "scipy_minimize as programs over named objects, the footprint of simulate, the kind of copy of the settings) from the "
                "python ast; Api/SrcProg*.v prove for every instance that they denote the scripts of Api/ApiCalls.v with the theorems' shape "
                "predicates (C13_src_*), and every recorded call is checked inside Coq to be an execution of the generated program. "
+               "Flow check on the generated programs (extension 2, Api/SrcFlow*.v): for every instance the generated MCMC / estimate programs pass the "
+               "flow check of C13_history_independent when what the initialisation functions read is determined by kept variables and kept + data + "
+               "individual variables are closed / the variables read by estimate depend on kept variables, t and the given parameters only "
+               "(C13_src_mcmc_history_independent, _repeat_same_answer, C13_src_estimate_history_independent); the generated scipy program is rejected "
+               "as soon as the per-individual initialisation reads a variable kept + data variables do not determine (C13_src_scipy_flow_refuted, F6); "
+               "these hypotheses are evaluated inside Coq on every recorded instance (Api/SrcFlowTie.v). "
                "Settings object (extension): algo/settings.py is modelled (Api/Settings.v: nested update, resolution, save/load, heap of "
                "dictionary objects); C13_settings_*: explicit key wins / default kept / nested update / idempotence, ANY write sequence "
                "through the deep copy at any depth leaves the caller's settings as they were; rule regenerated from the source "
@@ -67,6 +73,9 @@ OBLIGATIONS = [
 SRC_OBLIGATIONS = [
     # source-level tie (Api/SrcProg*.v): the programs regenerated from today's source denote the scripts above
     "C13_src_estimate_pure", "C13_src_mcmc_call_clean", "C13_src_scipy_call_pure", "C13_src_simulate_pure", "C13_src_settings_copied", "C13_src_examples",
+    # the flow check on the generated programs, symbolically (Api/SrcFlow*.v)
+    "C13_src_mcmc_history_independent", "C13_src_mcmc_repeat_same_answer", "C13_src_estimate_history_independent",
+    "C13_src_scipy_flow_refuted", "C13_src_flow_examples",
 ]
 OBLIGATIONS += SRC_OBLIGATIONS
 # the settings object itself (Api/Settings*.v; T1 harness/translate/settings.py, T2 harness/props/c13_settings.py)
@@ -906,6 +915,8 @@ def coq_nats(l):
 SRC_HEADER = ("From Coq Require Import List Arith Bool String. Import ListNotations.\n"
               "From Leaspy Require Import Api.ApiModel Api.ApiInst Api.ApiTie Api.ApiCalls Api.ApiCallsTie Api.SrcProg Api.SrcProgTie.\n")
 SRC_CASE = "sinst * list (option unit) * list rop"
+FLOW_HEADER = SRC_HEADER + "From Leaspy Require Import Api.SrcFlow Api.SrcFlowTie.\n"
+FLOW_CASE = "list (list nat) * list nat * sinst"
 
 
 def coq_s(x: str) -> str:
@@ -993,7 +1004,8 @@ def trace_tie(run: Run, thorough: bool, src_ok: bool = False):
     from harness import synth
     from leaspy.models import BaseModel
     wd = tmpdir()
-    cases = {k: [] for k in ("estimate", "simulate", "mcmc", "scipy", "estimate_src", "mcmc_src", "scipy_src", "simulate_src")}
+    cases = {k: [] for k in ("estimate", "simulate", "mcmc", "scipy", "estimate_src", "mcmc_src", "scipy_src", "simulate_src",
+                             "estimate_flow_src", "mcmc_flow_src", "scipy_flow_src")}
     meta = {k: [] for k in cases}
     kinds = ["logistic", "linear", "joint"] + (["shared_speed_logistic"] if thorough else [])
     try:
@@ -1031,6 +1043,8 @@ def trace_tie(run: Run, thorough: bool, src_ok: bool = False):
                     si = coq_sinst(var_ix, g, len(tp), keys={"individual_parameters": [[var_ix[n] for n in ip[i].keys()] for i in tp]})
                     cases["estimate_src"].append(f"({'true' if kind == 'joint' else 'false'}, {si}, {shape}, {coq_trace(t)})")
                     meta["estimate_src"].append(dict(kind=kind, history=hist, op=op, trace=t))
+                    cases["estimate_flow_src"].append(f"({'true' if kind == 'joint' else 'false'}, {anc_l}, {coq_nats(kept)}, {si})")
+                    meta["estimate_flow_src"].append(dict(kind=kind, history=hist, op=op, trace=t))
                 if t is not None:
                     cases["estimate"].append(f"({anc_l}, {coq_nats(kept)}, {var_ix['t']}, {coq_nats([var_ix[n] for n in outs])}, {reqs}, {shape}, {coq_trace(t)})")
                     meta["estimate"].append(dict(kind=kind, history=hist, op=op, trace=t))
@@ -1061,6 +1075,8 @@ def trace_tie(run: Run, thorough: bool, src_ok: bool = False):
                             si = coq_sinst(var_ix, g, 2, work={"put_individual_parameters": put, "patient": pat})
                             cases["scipy_src"].append(f"({si}, {shape}, {coq_trace(t)})")
                             meta["scipy_src"].append(dict(kind=kind, history=hist, op=op, trace=t))
+                            cases["scipy_flow_src"].append(f"({anc_l}, {coq_nats(kept)}, {si})")
+                            meta["scipy_flow_src"].append(dict(kind=kind, history=hist, op=op, trace=t))
                         cases["scipy"].append(f"({anc_l}, {coq_nats(kept)}, {coq_nats(dvars)}, {coq_nats(ivars)}, {shape}, 2, {coq_trace(t)})")
                         meta["scipy"].append(dict(kind=kind, history=hist, op=op, trace=t,
                                                   ind_set=all(model.state._values[n] is not None for n in names if var_ix[n] in ivars)))
@@ -1085,6 +1101,8 @@ def trace_tie(run: Run, thorough: bool, src_ok: bool = False):
                             si = coq_sinst(var_ix, g, 3, keys={"pyt_individual_parameters": [keys]}, reads=reads, work={"sampling": [work]})
                             cases["mcmc_src"].append(f"({si}, {shape}, {coq_trace(t)})")
                             meta["mcmc_src"].append(dict(kind=kind, history=hist, op=op, trace=t))
+                            cases["mcmc_flow_src"].append(f"({anc_l}, {coq_nats(kept)}, {si})")
+                            meta["mcmc_flow_src"].append(dict(kind=kind, history=hist, op=op, trace=t))
                         cases["mcmc"].append(f"({anc_l}, {coq_nats(kept)}, {coq_nats(dvars)}, {coq_nats(ivars)}, {shape}, {coq_trace(t)})")
                         meta["mcmc"].append(dict(kind=kind, history=hist, op=op, trace=t))
                     except EncodeError as e:
@@ -1099,9 +1117,11 @@ def trace_tie(run: Run, thorough: bool, src_ok: bool = False):
               ("scipy", "list (list nat) * list nat * list nat * list nat * list (option unit) * nat * list rop", "check_scipy_call")]
     if src_ok:
         checks += [("estimate_src", "bool * " + SRC_CASE, "check_estimate_src"), ("mcmc_src", SRC_CASE, "check_mcmc_src"),
-                   ("scipy_src", SRC_CASE, "check_scipy_src"), ("simulate_src", "sinst * list rop", "check_simulate_src")]
+                   ("scipy_src", SRC_CASE, "check_scipy_src"), ("simulate_src", "sinst * list rop", "check_simulate_src"),
+                   # hypotheses of C13_src_mcmc_history_independent / C13_src_estimate_history_independent on the recorded instance
+                   ("estimate_flow_src", "bool * " + FLOW_CASE, "check_estimate_flow_src"), ("mcmc_flow_src", FLOW_CASE, "check_mcmc_flow_src")]
     for name, ty, chk in checks:
-        header = SRC_HEADER if name.endswith("_src") else TIE_HEADER
+        header = FLOW_HEADER if name.endswith("_flow_src") else SRC_HEADER if name.endswith("_src") else TIE_HEADER
         if not cases[name]:
             run.broken(f"trace:{name}:no-case", "no recorded call could be encoded", kind="broken-correspondence")
             continue
@@ -1111,6 +1131,13 @@ def trace_tie(run: Run, thorough: bool, src_ok: bool = False):
             run.count("trace_ops", f"{name}:{m['kind']}", len(m["trace"]))
         for i in bad or []:
             m = meta[name][i]
+            if name.endswith("_flow_src"):
+                tie_broken(run, name, "flow-hypotheses-of-the-generated-program-not-met",
+                           f"recorded {name[:-9]} call on a {m['kind']} model ({m['history']}): the hypotheses of C13_src_{name[:-9]}_history_independent "
+                           f"(what the call reads is determined by kept variables + what it assigned; kept + data + individual variables closed) "
+                           f"do not hold on the recorded instance, or the script denoted by coq/gen/GenC13.v fails the flow check",
+                           dict(kind=m["kind"], history=m["history"], ops=[m["op"]]))
+                continue
             if name.endswith("_src"):
                 tie_broken(run, name, "not-an-execution-of-the-generated-program",
                            f"recorded {name[:-4]} call on a {m['kind']} model ({m['history']}) is not an execution of the program "
@@ -1135,6 +1162,16 @@ def trace_tie(run: Run, thorough: bool, src_ok: bool = False):
                                                   "rejected as long as finding F6 stands (C13_scipy_start_refuted)")
         run.extra["_scipy_flow_rejected"] = [dict(kind=meta["scipy"][i]["kind"], history=meta["scipy"][i]["history"], ops=[meta["scipy"][i]["op"]])
                                              for i in bad or []]
+    if cases["scipy_flow_src"]:
+        # C13_src_scipy_flow_refuted, part (1): its hypotheses (the per-individual initialisation starts by reading a variable that kept +
+        # data variables do not determine) evaluated on the recorded instance; EXPECTED to hold as long as finding F6 stands.  Evidence
+        # only: a repaired scipy_minimize makes them false, which is no alarm.
+        bad = run.vm_bad_indices("tie_scipy_flow_src", FLOW_HEADER, FLOW_CASE, cases["scipy_flow_src"], "check_scipy_flow_src")
+        run.extra["scipy_src_flow_refutation"] = dict(
+            instances=len(cases["scipy_flow_src"]), refutation_applies=len(cases["scipy_flow_src"]) - len(bad or []),
+            not_applicable_on=[f"{meta['scipy_flow_src'][i]['kind']}:{meta['scipy_flow_src'][i]['history']}" for i in bad or []],
+            note="hypotheses of C13_src_scipy_flow_refuted (generated program, recorded instance): first operation of put_individual_parameters "
+                 "on the clone is a read of a variable not determined by kept + data variables, and the denoted script fails the flow check")
     if meta["estimate"]:
         m = meta["estimate"][0]
         run.sample(dict(kind="trace", call="estimate", model=m["kind"], history=m["history"], recorded=m["trace"][:14]))
@@ -1180,7 +1217,7 @@ def build_tie(run: Run, src_ok: bool = False):
         run.broken("build:ApiCallsTie", out[-1500:])
     ok2 = False
     if ok and src_ok:
-        ok2, out = make(["theories/Api/SrcProgTie.vo"], jobs=8)
+        ok2, out = make(["theories/Api/SrcProgTie.vo", "theories/Api/SrcFlowTie.vo"], jobs=8)
         if not ok2:
             run.broken("build:SrcProgTie", out[-1500:])
     return ok, ok2
